@@ -149,10 +149,11 @@ Theorem C11_meta_fields : forall (C : Type) (c_step : C -> bytes -> C * bytes) (
 Proof. exact session_meta_fields. Qed.
 Print Assumptions C11_meta_fields.
 
-(* header encryption: around the two ciphertexts there is only the signature header and the descriptor,
-   which depend on the header only through its ciphertext and the LENGTH of its plaintext *)
+(* header encryption: around the two ciphertexts there is only the signature header and the descriptor, which
+   depend on the header only through its ciphertext, the LENGTH of its plaintext and the CRC-32 of its plaintext
+   (the record that makes a wrong password detectable; it is stored in the clear BY CONSTRUCTION) *)
 Theorem C11_names_only_through_cipher : forall (h h' : header) (packed : bytes) (hcs : list coder) (hp r1 r2 : bytes),
-  write_header true 0 h = Ok r1 -> write_header true 0 h' = Ok r2 -> blen r1 = blen r2 ->
+  write_header true 0 h = Ok r1 -> write_header true 0 h' = Ok r2 -> blen r1 = blen r2 -> crc32 r1 = crc32 r2 ->
   assemble 2 h packed hcs hp = assemble 2 h' packed hcs hp.
 Proof. exact names_only_through_cipher. Qed.
 Print Assumptions C11_names_only_through_cipher.
@@ -160,7 +161,7 @@ Print Assumptions C11_names_only_through_cipher.
 Theorem C11_encrypted_archive_layout : forall (h : header) (packed : bytes) (hcs : list coder) (hp : bytes),
   assemble 2 h packed hcs hp =
   (do hraw <- write_header true 0 h;
-   do sd <- plain_parts (blen packed) hcs hp (blen hraw);
+   do sd <- plain_parts (blen packed) hcs hp (blen hraw) (crc32 hraw);
    Ok (fst sd ++ packed ++ hp ++ snd sd)).
 Proof. exact assemble2_plain_parts. Qed.
 Print Assumptions C11_encrypted_archive_layout.
@@ -168,18 +169,19 @@ Print Assumptions C11_encrypted_archive_layout.
 Theorem C11_names_only_through_header_cipher : forall (Eb hdr_lzma : bytes -> bytes) (hcoder : coder) (m m' : meta)
     (packed : bytes) (r : rng) (p0 : nat) (hraw hraw' : bytes),
   header_raw m packed = Ok hraw -> header_raw m' packed = Ok hraw' -> blen hraw = blen hraw' ->
+  crc32 hraw = crc32 hraw' ->
   fst (cbc_enc Eb (draw16 r (draw_pos p0 1)) (pad16 hraw)) = fst (cbc_enc Eb (draw16 r (draw_pos p0 1)) (pad16 hraw')) ->
   archive_of Eb hdr_lzma 2 hcoder m packed r p0 = archive_of Eb hdr_lzma 2 hcoder m' packed r p0.
 Proof. exact names_only_through_header_cipher. Qed.
 Print Assumptions C11_names_only_through_header_cipher.
 
-(* non-vacuity of the names theorem: two different names of equal length give different raw headers of equal
-   length, hence the same bytes around ANY header ciphertext *)
+(* non-vacuity: two different names of equal length give different raw headers of equal length; the bytes around
+   the header ciphertext then differ only through the CRC argument *)
 Example C11_names_example :
   mt_names ex_meta <> mt_names ex_meta' /\
-  (exists h h' r1 r2, mk_header ex_meta 32 7 = Ok h /\ mk_header ex_meta' 32 7 = Ok h' /\ h <> h' /\
-     write_header true 0 h = Ok r1 /\ write_header true 0 h' = Ok r2 /\ r1 <> r2 /\ blen r1 = blen r2 /\
-     forall hcs hp, assemble 2 h (ex_plain 32) hcs hp = assemble 2 h' (ex_plain 32) hcs hp).
+  (exists r1 r2, header_raw ex_meta (ex_plain 32) = Ok r1 /\ header_raw ex_meta' (ex_plain 32) = Ok r2 /\
+     r1 <> r2 /\ blen r1 = blen r2 /\
+     forall hcs hp c, plain_parts 32 hcs hp (blen r1) c = plain_parts 32 hcs hp (blen r2) c).
 Proof. exact names_example. Qed.
 
 (* non-vacuity: a complete run of the step model ([Copy, AES], block size 16, header encrypted) *)
@@ -297,31 +299,63 @@ Example C11_right_wrong_password_example :
   = Err ECrc.
 Proof. exact right_password_example. Qed.
 
-(* encrypted header under any key: THE acceptance condition -- first byte 01 and a parsable body; no CRC *)
+(* encrypted header under any key: THE acceptance condition.  With the CRC record that py7zr writes (fcrc = Some c):
+   stored CRC-32 matches AND first byte 01 AND the body parses; without it (foreign archive): the last two only *)
 Theorem C11_encrypted_header_wrong_pw_accept_condition : forall (Db' : bytes -> bytes) (lim : Z) (ivh hp : bytes)
-    (n : Z) (h : header),
-  open_encrypted_header Db' lim ivh hp n = Ok h <->
+    (n : Z) (fcrc : option Z) (h : header),
+  open_encrypted_header Db' lim ivh hp n fcrc = Ok h <->
+  (match fcrc with Some c => crc32 (takeZ n (fst (cbc_dec Db' ivh hp))) = c | None => True end) /\
   exists r rest, takeZ n (fst (cbc_dec Db' ivh hp)) = 1 :: r /\ parse_header_body lim r = Ok (h, rest).
 Proof. exact encrypted_header_wrong_pw_accept_condition. Qed.
 Print Assumptions C11_encrypted_header_wrong_pw_accept_condition.
 
-(* first decrypted byte <> 01: TypeError("Unknown field") -- an error, though not PasswordRequired/CrcError *)
-Theorem C11_encrypted_header_wrong_pw_partial : forall (Db' : bytes -> bytes) (lim : Z) (ivh hp : bytes) (n b : Z) (r : bytes),
-  takeZ n (fst (cbc_dec Db' ivh hp)) = b :: r -> b <> 1 -> open_encrypted_header Db' lim ivh hp n = Err EOther.
+(* what py7zr writes: under ANY key, opening succeeds only if the decrypted bytes have the CRC-32 of the plain
+   header; otherwise Bad7zFile("invalid block data") -- error, or CRC collision (explicit disjunct) *)
+Theorem C11_encrypted_header_wrong_pw_error_or_collision : forall (Db' : bytes -> bytes) (lim : Z) (ivh hp hraw : bytes),
+  match open_encrypted_header Db' lim ivh hp (blen hraw) (Some (crc32 hraw)) with
+  | Ok _ => crc32 (takeZ (blen hraw) (fst (cbc_dec Db' ivh hp))) = crc32 hraw
+  | Err e => crc32 (takeZ (blen hraw) (fst (cbc_dec Db' ivh hp))) <> crc32 hraw -> e = EBad7z
+  end.
+Proof. exact encrypted_header_wrong_pw_error_or_collision. Qed.
+Print Assumptions C11_encrypted_header_wrong_pw_error_or_collision.
+
+Theorem C11_encrypted_header_right_key : forall Eb Db : bytes -> bytes,
+  (forall x : bytes, length x = 16%nat -> Db (Eb x) = x) ->
+  (forall x : bytes, length x = 16%nat -> length (Eb x) = 16%nat) ->
+  forall (lim : Z) (ivh : bytes), length ivh = 16%nat -> forall hraw : bytes,
+  open_encrypted_header Db lim ivh (fst (cbc_enc Eb ivh (pad16 hraw))) (blen hraw) (Some (crc32 hraw)) =
+  decoded_header lim hraw.
+Proof. exact encrypted_header_right_key. Qed.
+Print Assumptions C11_encrypted_header_right_key.
+
+(* any key, any archive: a first decrypted byte <> 01 is an error (TypeError, or Bad7zFile when a CRC is stored) *)
+Theorem C11_encrypted_header_wrong_pw_partial : forall (Db' : bytes -> bytes) (lim : Z) (ivh hp : bytes) (n b : Z)
+    (r : bytes) (fcrc : option Z),
+  takeZ n (fst (cbc_dec Db' ivh hp)) = b :: r -> b <> 1 ->
+  exists e, open_encrypted_header Db' lim ivh hp n fcrc = Err e /\ (e = EOther \/ e = EBad7z).
 Proof. exact encrypted_header_wrong_pw_partial. Qed.
 Print Assumptions C11_encrypted_header_wrong_pw_partial.
 
-(* garbage beginning 01 00 is accepted as the header of an EMPTY archive, whatever follows ... *)
+(* garbage beginning 01 00 parses as the header of an EMPTY archive, whatever follows ... *)
 Theorem C11_encrypted_header_accepts_01_00 : forall (lim : Z) (rest : bytes),
   decoded_header lim (1 :: 0 :: rest) = Ok (mkHeader None None []).
 Proof. exact encrypted_header_accepts_01_00. Qed.
 Print Assumptions C11_encrypted_header_accepts_01_00.
 
-(* ... so "a wrong password fails with an error" is REFUTED for encrypted headers: a one-member archive's header
-   encrypted under K opens under K' <> K as an empty archive.  Replay on the implementation: harness. *)
-Theorem C11_encrypted_header_wrong_password_refuted :
+(* ... as written by py7zr (CRC record) the wrong key is rejected and the right key opens the header *)
+Example C11_encrypted_header_wrong_key_rejected :
   ex_K <> ex_K' /\
-  (exists h, open_encrypted_header (toyK ex_K) 4096 ex_iv ex_hcipher (blen ex_hraw) = Ok h /\ h_files h <> None) /\
-  open_encrypted_header (toyK ex_K') 4096 ex_iv ex_hcipher (blen ex_hraw) = Ok (mkHeader None None []).
-Proof. exact encrypted_header_wrong_password_refuted. Qed.
-Print Assumptions C11_encrypted_header_wrong_password_refuted.
+  (exists h, open_encrypted_header (toyK ex_K) 4096 ex_iv ex_hcipher (blen ex_hraw) (Some (crc32 ex_hraw)) = Ok h /\
+             h_files h <> None) /\
+  open_encrypted_header (toyK ex_K') 4096 ex_iv ex_hcipher (blen ex_hraw) (Some (crc32 ex_hraw)) = Err EBad7z.
+Proof. exact encrypted_header_wrong_key_rejected. Qed.
+
+(* ... but for an archive whose encoded header carries NO CRC record (a foreign writer; py7zr before the repair)
+   "a wrong password fails with an error" is REFUTED: the same ciphertext opens under K' <> K as an empty archive.
+   Replay on the implementation: harness (the CRC record cut out of an archive py7zr wrote). *)
+Theorem C11_encrypted_header_without_crc_refuted :
+  ex_K <> ex_K' /\
+  (exists h, open_encrypted_header (toyK ex_K) 4096 ex_iv ex_hcipher (blen ex_hraw) None = Ok h /\ h_files h <> None) /\
+  open_encrypted_header (toyK ex_K') 4096 ex_iv ex_hcipher (blen ex_hraw) None = Ok (mkHeader None None []).
+Proof. exact encrypted_header_without_crc_refuted. Qed.
+Print Assumptions C11_encrypted_header_without_crc_refuted.
